@@ -5,7 +5,9 @@
 (* Touch, op "write" takes Write with the recorded naming.  After every step *)
 (* the clauses of Renamer!Failures are evaluated on (kw', nm'); verdicts are *)
 (* total: per step the smallest index of every violated clause is kept in    *)
-(* `bad` (<<clause, step, index>>) and printed when the history is consumed. *)
+(* `bad` (<<clause, step, index, detail>>), printed when the history is      *)
+(* consumed.  The ops of a trace are ALL writer constructions of one process  *)
+(* in order (a fresh process per trace).                                     *)
 (***************************************************************************)
 EXTENDS Renamer
 Traces == ndJsonDeserialize(IOEnv.TRACES)
@@ -16,9 +18,15 @@ NamingOfRec(lang, o) ==
    [lang |-> lang, feats |-> Rng(o.feats), done |-> TRUE, hasfresh |-> o.hasfresh, items |-> o.items,
     spaces |-> o.spaces, text |-> o.text, tback |-> o.tback]
 
-Clauses(F) == {f[1] : f \in F}
+\* the keyword-set history: features of the problems earlier writers of this process were constructed for
+\* that are outside the current problem's own language fragment
 MinOf(S) == CHOOSE x \in S : \A y \in S : x <= y
-Summary(F, step) == {<<c, step, MinOf({f[2] : f \in {g \in F : g[1] = c}})>> : c \in Clauses(F)}
+Groups(F) == {<<f[1], f[3]>> : f \in F}
+Before(t, step) == UNION {Rng(Traces[t].ops[j].feats) : j \in 1..(step - 1)}
+HistDetail(t, step, o) == IF Before(t, step) \ Rng(o.feats) # {} THEN <<"kw-extended-by-earlier-writer">> ELSE <<"no-kw-extension">>
+Summary(F, t, step, o) ==
+   {<<g[1], step, MinOf({f[2] : f \in {h \in F : h[1] = g[1] /\ h[3] = g[2]}}),
+      IF g[1] = "HistoryIndependent" THEN HistDetail(t, step, o) ELSE g[2]>> : g \in Groups(F)}
 
 TraceInit == tid \in DOMAIN Traces /\ l = 1 /\ bad = {} /\ DInit
 TraceNext ==
@@ -26,10 +34,10 @@ TraceNext ==
    /\ LET o == Traces[tid].ops[l]
           lang == Traces[tid].lang
       IN /\ IF o.op = "touch" THEN Touch(lang, Rng(o.feats)) ELSE Write(lang, Rng(o.feats), NamingOfRec(lang, o))
-         /\ bad' = bad \cup Summary(Failures(kw', nm'), l)
+         /\ bad' = bad \cup (IF o.op = "touch" THEN {} ELSE Summary(Failures(kw', nm'), tid, l, o))
    /\ l' = l + 1 /\ tid' = tid
 TraceSpec == TraceInit /\ [][TraceNext]_tvars
 
 Done == l > Len(Traces[tid].ops)
-Verdict == Done => \A b \in bad : PrintT(<<"FAIL", Traces[tid].id, b[1], b[2], b[3]>>)
+Verdict == Done => \A b \in bad : PrintT(<<"FAIL", Traces[tid].id, b[1], b[2], b[3], b[4]>>)
 =============================================================================
